@@ -142,6 +142,13 @@ def exercise(ctx, spec, dirs, klass):
                                   tuple(i for _, i in spec['levels']), depth, ac, ax),
                              case=case, nontrivial=nontrivial, klass=klass)
                     call(ctx, ft, dirs, depth, ac, ax, mode, case)
+        if klass == 'xdev':
+            # ... and with every option left to its default (what the CLI does)
+            case = {'kind': 'chain', 'spec': spec, 'start': depth,
+                    'allow_compressed': False, 'allow_xdev': 'default', 'mode': 'abs'}
+            ctx.case(sig=('chain-default', depth), case=case, nontrivial=nontrivial,
+                     klass=klass)
+            call(ctx, ft, dirs, depth, False, 'default', 'abs', case)
 
 
 def call(ctx, ft, dirs, depth, ac, ax, mode, case):
@@ -155,7 +162,10 @@ def call(ctx, ft, dirs, depth, ac, ax, mode, case):
             os.chdir(dirs[0] if depth else dirs[depth])
             start = os.path.relpath(dirs[depth], os.getcwd())
         try:
-            ft.find_top_level_manifest(start, allow_xdev=ax, allow_compressed=ac)
+            if ax == 'default':
+                ft.find_top_level_manifest(start)
+            else:
+                ft.find_top_level_manifest(start, allow_xdev=ax, allow_compressed=ac)
         except Exception as exc:
             from vf import adapt
             ctx.violation('find-top-raises:' + adapt.exc_key(exc),
